@@ -6,6 +6,7 @@
 //            npos} and n in {0..size+2, npos} is tried (exhaustive).
 // mode=rand  random longer strings (length <= 64) over several alphabets.
 #include <verif.hpp>
+#include <slice.hpp>
 
 #include <stdexcept>
 #include <string>
@@ -110,8 +111,9 @@ static std::vector<size_t> arg_values(size_t size, Rng& rng, bool with_npos1 = t
 static void check_unary(const std::string& h, Rng& rng) {
     static const std::string empty;
     g_hay = &h; g_needle = &empty; g_pos = g_n = g_pos2 = g_n2 = 0;
-    TV t(h.data(), h.size());
-    SV s(h.data(), h.size());
+    verif::Slice sh(h);   // the viewed bytes are not followed by a terminator
+    TV t(sh.data(), h.size());
+    SV s(sh.data(), h.size());
     chk("size", [&] { return t.size(); }, [&] { return s.size(); });
     chk("length", [&] { return t.length(); }, [&] { return s.length(); });
     chk("empty", [&] { return t.empty(); }, [&] { return s.empty(); });
@@ -173,8 +175,9 @@ static void check_unary(const std::string& h, Rng& rng) {
 
 static void check_pair(const std::string& h, const std::string& x, Rng& rng, bool full) {
     g_hay = &h; g_needle = &x; g_pos = g_n = g_pos2 = g_n2 = 0;
-    TV t(h.data(), h.size()), tx(x.data(), x.size());
-    SV s(h.data(), h.size()), sx(x.data(), x.size());
+    verif::Slice sh(h), sxs(x);   // the viewed bytes are not followed by a terminator
+    TV t(sh.data(), h.size()), tx(sxs.data(), x.size());
+    SV s(sh.data(), h.size()), sx(sxs.data(), x.size());
     const char* xc = x.c_str();  // C string: ends at the first NUL, for both sides
 
     chk("compare(view)", [&] { return sign(t.compare(tx)); }, [&] { return sign(s.compare(sx)); });
